@@ -12,8 +12,8 @@ import (
 	"sort"
 
 	"github.com/cosmos/iavl"
-	ics23 "github.com/cosmos/ics23/go"
 	dbm "github.com/cosmos/iavl/db"
+	ics23 "github.com/cosmos/ics23/go"
 
 	"verif/internal/codec"
 	"verif/internal/fw"
